@@ -1,0 +1,273 @@
+//go:build verif
+
+package queue
+
+// Contracts for govc (contract-based deductive verification; see /verif/DESIGN.md, property C06).
+// This file holds only comments and is compiled only with -tags verif.
+//
+// C06 kernel. `tp` is the sort of values of a type parameter (K and T). qkey(v) / qsched(v) are the uninterpreted
+// meaning of v.Key() and v.ScheduledTime() (the latter as unixNano); they, the heap predicates hwf / hord / hmin / hordx
+// and the assumed contracts of container/heap are in /verif/libspec/heap.spec.
+
+// Assumption about the element type: Key and ScheduledTime are functions of the value (an element does not change
+// its key or its time while it is queued) and have no effect.
+//@ func (Queueable).Key
+//@   skip
+//@   params v
+//@   pure
+//@   ensures result == qkey(v)
+//@ func (Queueable).ScheduledTime
+//@   skip
+//@   params v
+//@   pure
+//@   ensures unixNano(result) == qsched(v)
+
+// ---- the five heap.Interface methods ---------------------------------------------------------------------------
+
+//@ func (queueHeap).Len
+//@   tags C06 C07
+//@   modifies nothing
+//@   ensures [C06.heap.len] result == len(pq) && result >= 0
+
+// Less is the strict order on ScheduledTime.
+//@ func (queueHeap).Less
+//@   tags C06 C07
+//@   requires 0 <= i && i < len(pq) && 0 <= j && j < len(pq) && pq[i] != nil && pq[j] != nil
+//@   modifies nothing
+//@   ensures [C06.heap.less] result == (qsched(pq[i].value) < qsched(pq[j].value))
+
+// Swap exchanges two positions and keeps "the index field of the element at position k is k".
+//@ func (queueHeap).Swap
+//@   tags C06 C07
+//@   requires 0 <= i && i < len(pq) && 0 <= j && j < len(pq) && pq[i] != nil && pq[j] != nil && (i != j ==> pq[i] != pq[j])
+//@   modifies pq[i], pq[j], pq[i].index, pq[j].index
+//@   ensures [C06.heap.swap] pq[i] == old(pq[j]) && pq[j] == old(pq[i]) && pq[i].index == i && pq[j].index == j
+//@   ensures [C06.heap.swap.index] old(hwf(region(pq), pq.off, len(pq), fieldmap(pq[0].index))) ==> hwf(region(pq), pq.off, len(pq), fieldmap(pq[0].index))
+
+// Push appends the item and records its position.
+//@ func (*queueHeap).Push
+//@   tags C06 C07
+//@   requires pq != nil
+//@   requires typeis(x, "*github.com/dapr/kit/events/queue.queueItem[K, T]")
+//@   requires unbox(x, "*github.com/dapr/kit/events/queue.queueItem") != nil
+//@   ensures [C06.heap.push] len(*pq) == old(len(*pq)) + 1 && (*pq)[len(*pq) - 1] == unbox(x, "*github.com/dapr/kit/events/queue.queueItem") && (*pq)[len(*pq) - 1].index == len(*pq) - 1
+//@   ensures [C06.heap.push.rest] forall k :: 0 <= k && k < old(len(*pq)) ==> (*pq)[k] == old((*pq)[k])
+//@   ensures [C06.heap.push.index] (old(hwf(region(*pq), (*pq).off, len(*pq), fieldmap((*pq)[0].index))) && (forall k :: 0 <= k && k < old(len(*pq)) ==> old((*pq)[k]) != unbox(x, "*github.com/dapr/kit/events/queue.queueItem")))
+//@        ==> hwf(region(*pq), (*pq).off, len(*pq), fieldmap((*pq)[0].index))
+
+// Pop removes the last element, clears its slot and marks it with index -1.
+//@ func (*queueHeap).Pop
+//@   tags C06 C07
+//@   requires pq != nil && len(*pq) >= 1 && (*pq)[len(*pq) - 1] != nil
+//@   modifies *pq, (*pq)[len(*pq) - 1], (*pq)[len(*pq) - 1].index
+//@   ensures [C06.heap.pop] len(*pq) == old(len(*pq)) - 1 && result == box(old((*pq)[len(*pq) - 1]), "*github.com/dapr/kit/events/queue.queueItem[K, T]") && old((*pq)[len(*pq) - 1]).index == -1
+//@   ensures [C06.heap.pop.rest] forall k :: 0 <= k && k < len(*pq) ==> (*pq)[k] == old((*pq)[k])
+//@   ensures [C06.heap.pop.index] old(hwf(region(*pq), (*pq).off, len(*pq), fieldmap((*pq)[0].index))) ==> hwf(region(*pq), (*pq).off, len(*pq), fieldmap((*pq)[0].index))
+
+// ---- queue: a keyed priority map ---------------------------------------------------------------------------------
+// View: the key set is the domain of items, the value of key k is items[k].value. Representation invariant: the heap
+// slice is well-formed (index field == position) and heap-ordered with a minimal head; every map entry is the heap
+// element at the position its index names and is filed under the key of its value; every heap element is the map
+// entry of its value's key; hence one item per key and len(items) == len(*heap).
+
+//@ type queue
+//@   invariant [ptrs] self.heap != nil && self.items != nil
+//@   invariant [alloc] forall j :: 0 <= j && j < len(*self.heap) ==> allocated((*self.heap)[j])
+//@   invariant [wf] hwf(region(*self.heap), (*self.heap).off, len(*self.heap), fieldmap((*self.heap)[0].index))
+//@   invariant [ord] hord(region(*self.heap), (*self.heap).off, len(*self.heap), fieldmap((*self.heap)[0].value))
+//@   invariant [min] hmin(region(*self.heap), (*self.heap).off, len(*self.heap), fieldmap((*self.heap)[0].value))
+//@   invariant [map.pos] forall k tp :: haskey(self.items, k) ==> (self.items[k] != nil && 0 <= self.items[k].index && self.items[k].index < len(*self.heap) && (*self.heap)[self.items[k].index] == self.items[k])
+//@   invariant [map.key] forall k tp :: haskey(self.items, k) ==> qkey(self.items[k].value) == k
+//@   invariant [heap] forall j :: 0 <= j && j < len(*self.heap) ==> (haskey(self.items, qkey((*self.heap)[j].value)) && self.items[qkey((*self.heap)[j].value)] == (*self.heap)[j])
+//@   invariant [len] len(self.items) == len(*self.heap)
+
+//@ func newQueue
+//@   tags C06 C07
+//@   modifies nothing
+//@   ensures [C06.queue.new] result.heap != nil && fresh(result.heap) && len(*result.heap) == 0 && result.items != nil && fresh(result.items) && len(result.items) == 0 && (forall k tp :: !haskey(result.items, k))
+
+//@ func (*queue).Len
+//@   tags C06 C07
+//@   requires p != nil && p.heap != nil
+//@   modifies nothing
+//@   ensures [C06.queue.len] result == len(*p.heap) && result >= 0
+
+//@ func (*queue).Peek
+//@   tags C06 C07
+//@   requires p != nil && inv(p)
+//@   modifies nothing
+//@   ensures [C06.queue.peek] result1 == (len(*p.heap) > 0) && (result1 ==> (result == (*p.heap)[0].value && haskey(p.items, qkey(result)) && p.items[qkey(result)].value == result))
+//@   ensures [C06.queue.peek.min] result1 ==> (forall k tp :: haskey(p.items, k) ==> qsched(result) <= qsched(p.items[k].value))
+
+// Remove: the key leaves the view, every other key keeps its item and its value.
+//@ func (*queue).Remove
+//@   tags C06 C07
+//@   requires p != nil && inv(p)
+//@   modifies *p.heap, (*p.heap)[0:len(*p.heap)], allof((*p.heap)[0].index), mapof(p.items)
+//@   ensures [C06.queue.remove.inv] inv(p)
+//@   ensures [C06.queue.remove.dom] forall k tp :: haskey(p.items, k) == (old(haskey(p.items, k)) && k != key)
+//@   ensures [C06.queue.remove.others] forall k tp :: haskey(p.items, k) ==> (p.items[k] == old(p.items[k]) && p.items[k].value == old(p.items[k].value))
+//@   ensures [C06.queue.remove.len] len(p.items) == old(len(p.items)) - (old(haskey(p.items, key)) ? 1 : 0)
+
+// Pop: removes and returns the head, whose ScheduledTime is minimal; nothing happens on an empty queue.
+//@ func (*queue).Pop
+//@   tags C06 C07
+//@   requires p != nil && inv(p)
+//@   modifies *p.heap, (*p.heap)[0:len(*p.heap)], allof((*p.heap)[0].index), mapof(p.items)
+//@   ensures [C06.queue.pop.inv] inv(p)
+//@   ensures [C06.queue.pop.ok] result1 == (old(len(*p.heap)) > 0)
+//@   ensures [C06.queue.pop.head] result1 ==> (result == old((*p.heap)[0].value) && old(haskey(p.items, qkey(result))) && old(p.items[qkey(result)].value) == result)
+//@   ensures [C06.queue.pop.min] result1 ==> (forall k tp :: old(haskey(p.items, k)) ==> qsched(result) <= qsched(old(p.items[k].value)))
+//@   ensures [C06.queue.pop.dom] forall k tp :: haskey(p.items, k) == (old(haskey(p.items, k)) && !(result1 && k == qkey(result)))
+//@   ensures [C06.queue.pop.others] forall k tp :: haskey(p.items, k) ==> (p.items[k] == old(p.items[k]) && p.items[k].value == old(p.items[k].value))
+//@   ensures [C06.queue.pop.len] len(p.items) == old(len(p.items)) - (result1 ? 1 : 0)
+
+// Insert: a new key enters the view with value r; an existing key gets value r iff replace; other keys are untouched.
+//@ func (*queue).Insert
+//@   tags C06 C07
+//@   requires p != nil && inv(p)
+//@   modifies *p.heap, (*p.heap)[0:len(*p.heap)], (*p.heap)[0:cap(*p.heap)], allof((*p.heap)[0].index), mapof(p.items), p.items[qkey(r)].value
+//@   ensures [C06.queue.insert.inv.replace] replace ==> inv(p)
+//@   ensures [C06.queue.insert.inv.keep] !replace ==> inv(p)
+//@   ensures [C06.queue.insert.dom] forall k tp :: haskey(p.items, k) == (old(haskey(p.items, k)) || k == qkey(r))
+//@   ensures [C06.queue.insert.new] !old(haskey(p.items, qkey(r))) ==> (p.items[qkey(r)].value == r && len(p.items) == old(len(p.items)) + 1)
+//@   ensures [C06.queue.insert.replace] (old(haskey(p.items, qkey(r))) && replace) ==> (p.items[qkey(r)] == old(p.items[qkey(r)]) && p.items[qkey(r)].value == r && len(p.items) == old(len(p.items)))
+//@   ensures [C06.queue.insert.keep] (old(haskey(p.items, qkey(r))) && !replace) ==> (p.items[qkey(r)] == old(p.items[qkey(r)]) && p.items[qkey(r)].value == old(p.items[qkey(r)].value) && len(p.items) == old(len(p.items)))
+//@   ensures [C06.queue.insert.others] forall k tp :: (old(haskey(p.items, k)) && k != qkey(r)) ==> (p.items[k] == old(p.items[k]) && p.items[k].value == old(p.items[k].value))
+
+// Update: like Insert(r, true) for an existing key, a no-op otherwise.
+//@ func (*queue).Update
+//@   tags C06 C07
+//@   requires p != nil && inv(p)
+//@   modifies (*p.heap)[0:len(*p.heap)], allof((*p.heap)[0].index), p.items[qkey(r)].value
+//@   ensures [C06.queue.update.inv] inv(p)
+//@   ensures [C06.queue.update.dom] forall k tp :: haskey(p.items, k) == old(haskey(p.items, k))
+//@   ensures [C06.queue.update.value] haskey(p.items, qkey(r)) ==> p.items[qkey(r)].value == r
+//@   ensures [C06.queue.update.others] forall k tp :: (haskey(p.items, k) && k != qkey(r)) ==> (p.items[k] == old(p.items[k]) && p.items[k].value == old(p.items[k].value))
+
+// ---- Processor: the queue under the monitor rule ---------------------------------------------------------------------
+// p.lock protects the queue, i.e. the two fields of the nested struct, and the index / value fields of every queueItem
+// (the heap slice, its backing array and the map are reachable only through them). The lock invariant is the
+// representation invariant of the queue: assumed after every acquisition (whatever other goroutines did), proved
+// before every release. The queue methods themselves are sequential code; that they run with the lock held is
+// asserted at every call site ([C06.locked]).
+
+//@ ghost var chdone [int]bool
+
+//@ type Processor
+//@   lock lock protects queue queueItem.index queueItem.value
+//@   lockinv lock [C06.inv.queue] inv(self.queue)
+//@   invariant [cfg] self.clock != nil
+
+//@ func NewProcessor
+//@   tags C06 C07
+//@   modifies nothing
+//@   ensures [C06.new] result != nil && fresh(result) && inv(result) && inv(result.queue) && len(result.queue.items) == 0 && result.stopped.v == 0 && !chdone[result.stopCh]
+//@   at store stopCh#0 ghost chdone = update(chdone, arg0, false)
+
+//@ func (*Processor).WithClock
+//@   tags C06 C07
+//@   requires p != nil
+//@   modifies p.clock
+//@   ensures result == p && p.clock == clock
+
+// process: called with the lock held (precondition, proved at every call site); starts the loop goroutine or posts
+// a reset; touches nothing the lock protects.
+//@ func (*Processor).process
+//@   tags C06 C07
+//@   opt locks=caller
+//@   opt go=ignore
+//@   requires [C06.process.locked] p != nil && heldw(p.lock)
+//@   modifies nothing
+//@   ensures heldw(p.lock)
+
+//@ func (*Processor).process$1
+//@   tags C06 C07
+//@   requires p != nil && inv(p)
+
+//@ func (*Processor).processLoop$1
+//@   tags C06 C07
+//@   requires p != nil
+//@   modifies nothing
+
+// execute(r): executeFn is called only with the value that is the head at pop time under the lock and equals the
+// peeked r; by then it has left the queue and the lock has been released. An item dequeued or replaced after the
+// peek (head != r at L) is not executed and the queue is left as it was.
+//@ func (*Processor).execute
+//@   tags C06 C07
+//@   ghost called bool
+//@   requires p != nil
+//@   ensures [C06.exec.called] called <==> (at(L, len(*p.queue.heap)) > 0 && at(L, (*p.queue.heap)[0].value) == r)
+//@   ensures [C06.exec.skip] !called ==> (forall k tp :: at(U0, haskey(p.queue.items, k)) == at(L, haskey(p.queue.items, k)) && at(U0, p.queue.items[k]) == at(L, p.queue.items[k]))
+//@   at call Lock#0 label L
+//@   at call Lock#0 ghost called = false
+//@   at before call Peek#0 assert [C06.locked] heldw(p.lock)
+//@   at before call Pop#0 assert [C06.locked] heldw(p.lock)
+//@   at before call Unlock#0 label U0
+//@   at before call Unlock#1 label U
+//@   at before call funcvalue#0 assert [C06.exec.head] arg0 == old(r) && at(L, len(*p.queue.heap)) > 0 && at(L, (*p.queue.heap)[0].value) == old(r)
+//@   at before call funcvalue#0 assert [C06.exec.min] forall k tp :: at(L, haskey(p.queue.items, k)) ==> qsched(arg0) <= qsched(at(L, p.queue.items[k].value))
+//@   at before call funcvalue#0 assert [C06.exec.removed] !at(U, haskey(p.queue.items, qkey(old(r)))) && at(U, len(p.queue.items)) == at(L, len(p.queue.items)) - 1
+//@   at before call funcvalue#0 assert [C06.exec.unlocked] nolocks()
+//@   at before call funcvalue#0 ghost called = true
+
+// Enqueue: insert-or-replace under the lock; the isFirst flag handed to process is true exactly when the head before
+// the operation had r's key (the head is being replaced) or the head after it is r.
+//@ func (*Processor).Enqueue
+//@   tags C06 C07
+//@   requires p != nil
+//@   ensures [C06.enq.stopped] old(p.stopped.v) != 0 ==> nolocks()
+//@   ensures [C06.enq.view] old(p.stopped.v) == 0 ==> (at(U, haskey(p.queue.items, qkey(r))) && at(U, p.queue.items[qkey(r)].value) == r
+//@        && (forall k tp :: k != qkey(r) ==> (at(U, haskey(p.queue.items, k)) == at(L, haskey(p.queue.items, k)) && (at(L, haskey(p.queue.items, k)) ==> at(U, p.queue.items[k].value) == at(L, p.queue.items[k].value)))))
+//@   at call Lock#0 label L
+//@   at before call Peek#0 assert [C06.locked] heldw(p.lock)
+//@   at before call Insert#0 assert [C06.locked] heldw(p.lock) && arg2
+//@   at before call Peek#1 assert [C06.locked] heldw(p.lock)
+//@   at before call process#0 assert [C06.enq.isfirst] arg1 <==> ((at(L, len(*p.queue.heap)) > 0 && qkey(at(L, (*p.queue.heap)[0].value)) == qkey(r)) || (*p.queue.heap)[0].value == r)
+//@   at before call Unlock#0 label U
+
+// Dequeue: remove under the lock; process(true) is called exactly when the head before the operation had that key.
+//@ func (*Processor).Dequeue
+//@   tags C06 C07
+//@   ghost kicked bool
+//@   requires p != nil
+//@   ensures [C06.deq.view] old(p.stopped.v) == 0 ==> (!at(U, haskey(p.queue.items, key))
+//@        && (forall k tp :: k != key ==> (at(U, haskey(p.queue.items, k)) == at(L, haskey(p.queue.items, k)) && (at(L, haskey(p.queue.items, k)) ==> at(U, p.queue.items[k].value) == at(L, p.queue.items[k].value)))))
+//@   ensures [C06.deq.isfirst] old(p.stopped.v) == 0 ==> (kicked <==> (at(L, len(*p.queue.heap)) > 0 && qkey(at(L, (*p.queue.heap)[0].value)) == key))
+//@   at call Lock#0 label L
+//@   at call Lock#0 ghost kicked = false
+//@   at before call Peek#0 assert [C06.locked] heldw(p.lock)
+//@   at before call Remove#0 assert [C06.locked] heldw(p.lock)
+//@   at before call process#0 assert [C06.deq.next] arg1
+//@   at call process#0 ghost kicked = true
+//@   at before call Unlock#0 label U
+
+// processLoop (select = nondeterministic choice). gdl is the deadline computed from the peeked item: the saturated
+// difference ScheduledTime - Now. execute is reached only with the peeked item, and only if that difference was below
+// 500µs at the check, or after the timer armed with exactly that difference fired (select index 0). When the timer
+// channel actually delivers is the clock's timer semantics and is not part of this proof.
+//@ func (*Processor).processLoop
+//@   tags C06 C07
+//@   ghost gdl int
+//@   ghost fired bool
+//@   requires p != nil && inv(p)
+//@   loop 0 invariant p == old(p) && inv(p) && nolocks()
+// execute ends in the user callback, for which the engine has no frame (an unnamed func type cannot carry a contract):
+// it is assumed not to reconfigure the processor (p.clock stays non-nil).
+//@   at call execute assume inv(p)
+//@   at before call Peek#0 assert [C06.locked] heldw(p.lock)
+//@   at call Sub#0 assert [C06.loop.deadline] unixNano(arg0) == qsched(call_Peek_0_result) && unixNano(arg1) == unixNano(call_Now_0_result)
+//@   at call Sub#0 ghost gdl = res0
+//@   at before call execute#0 assert [C06.loop.due] gdl < 500000 && arg1 == call_Peek_0_result && nolocks()
+//@   at before call NewTimer#0 assert [C06.loop.timer] arg1 == gdl && gdl >= 500000
+//@   at select#1 ghost fired = res0 == 0
+//@   at before call execute#1 assert [C06.loop.fired] fired && gdl >= 500000 && arg1 == call_Peek_0_result && nolocks()
+
+// Close: the goroutine that wins the CAS closes stopCh, exactly once.
+//@ func (*Processor).Close
+//@   tags C07
+//@   requires p != nil
+//@   requires p.stopped.v == 0 ==> !chdone[p.stopCh]
+//@   ensures [C07.close.once] result == nil && p.stopped.v != 0 && (old(p.stopped.v) == 0 ==> chdone[p.stopCh])
+//@   at close#0 assert [C07.close.fresh] !chdone[p.stopCh]
+//@   at close#0 ghost chdone = update(chdone, p.stopCh, true)
